@@ -12,7 +12,8 @@ Import ListNotations.
 Inductive touches_only (t : tx) : prog -> Prop :=
 | TO_done r : touches_only t (Done r)
 | TO_read a k : can_read t a = true -> (forall v, touches_only t (k v)) -> touches_only t (Read a k)
-| TO_write a v k : can_write t a = true -> touches_only t k -> touches_only t (Write a v k).
+| TO_write a v k : can_write t a = true -> touches_only t k -> touches_only t (Write a v k)
+| TO_fail k : touches_only t k -> touches_only t (Fail k).
 
 Definition well_declared (t : tx) : Prop := touches_only t (tx_prog t).
 (* no {WorldIDStr, AccountReadLock} request *)
@@ -23,6 +24,8 @@ Lemma touches_read_inv t a k : touches_only t (Read a k) ->
 Proof. inversion 1; subst; auto. Qed.
 Lemma touches_write_inv t a v k : touches_only t (Write a v k) ->
   can_write t a = true /\ touches_only t k.
+Proof. inversion 1; subst; auto. Qed.
+Lemma touches_fail_inv t k : touches_only t (Fail k) -> touches_only t k.
 Proof. inversion 1; subst; auto. Qed.
 
 (* ------------------------------------------------------------------ *)
@@ -36,22 +39,34 @@ Proof. unfold upd. intro H. destruct (Nat.eqb_spec x a); congruence. Qed.
 (* ------------------------------------------------------------------ *)
 (* run_prog                                                             *)
 
-Lemma run_prog_ext p : forall w w', (forall a, w a = w' a) ->
-  (forall a, fst (run_prog p w) a = fst (run_prog p w') a) /\ snd (run_prog p w) = snd (run_prog p w').
+Lemma run_from_ext p : forall s s' w w', (forall a, s a = s' a) -> (forall a, w a = w' a) ->
+  (forall a, fst (run_from s p w) a = fst (run_from s' p w') a) /\ snd (run_from s p w) = snd (run_from s' p w').
 Proof.
-  induction p as [r|a k IH|a v k IH]; intros w w' E; cbn.
+  induction p as [r|a k IH|a v k IH|k IH]; intros s s' w w' Es E; cbn.
   - auto.
-  - rewrite (E a). apply IH, E.
-  - apply IH. intro x. unfold upd. destruct (Nat.eqb x a); auto.
+  - rewrite (E a). apply IH; auto.
+  - apply IH; auto. intro x. unfold upd. destruct (Nat.eqb x a); auto.
+  - apply IH; auto.
 Qed.
 
+Lemma run_prog_ext p : forall w w', (forall a, w a = w' a) ->
+  (forall a, fst (run_prog p w) a = fst (run_prog p w') a) /\ snd (run_prog p w) = snd (run_prog p w').
+Proof. intros w w' E. unfold run_prog. apply run_from_ext; auto. Qed.
+
 (* frame: an account the transaction cannot write keeps its value *)
+Lemma run_from_frame t p : touches_only t p -> forall s w a, can_write t a = false -> s a = w a ->
+  fst (run_from s p w) a = w a.
+Proof.
+  induction 1 as [r|a k Hr Hk IH|a v k Hw Hk IH|k Hk IH]; intros s w x Hx Hs; cbn; auto.
+  - rewrite IH; auto.
+    + apply upd_other. intro; subst. congruence.
+    + rewrite upd_other; auto. intro; subst. congruence.
+  - rewrite IH; auto.
+Qed.
+
 Lemma run_prog_frame t p : touches_only t p -> forall w a, can_write t a = false ->
   fst (run_prog p w) a = w a.
-Proof.
-  induction 1 as [r|a k Hr Hk IH|a v k Hw Hk IH]; intros w x Hx; cbn; auto.
-  rewrite IH by assumption. apply upd_other. intro; subst. congruence.
-Qed.
+Proof. intros H w a C. unfold run_prog. eapply run_from_frame; eauto. Qed.
 
 (* ------------------------------------------------------------------ *)
 (* static facts about lock requests                                     *)
@@ -238,12 +253,31 @@ Proof.
     constructor; auto. constructor; auto. intro vb. constructor; auto.
 Qed.
 
-Lemma compile_touches t is : forallb (instr_ok t) is = true -> forall obs, touches_only t (compile is obs).
+Lemma compile_k_touches t is : forallb (instr_ok t) is = true -> forall obs fin,
+  (forall o, touches_only t (fin o)) -> touches_only t (compile_k is obs fin).
 Proof.
-  induction is as [|i is IH]; intros H obs; cbn in *.
-  - constructor.
+  induction is as [|i is IH]; intros H obs fin Hf; cbn in *.
+  - auto.
   - apply andb_true_iff in H as [Hi His]. destruct i as [s|a k s]; cbn in Hi.
     + apply compile_s_touches; auto.
     + apply andb_true_iff in Hi as [Ha Hs]. constructor; auto. intro v.
       destruct (k <=? v)%Z; auto. apply compile_s_touches; auto.
+Qed.
+
+Lemma compile_touches t is : forallb (instr_ok t) is = true -> forall obs, touches_only t (compile is obs).
+Proof. intros H obs. apply compile_k_touches; auto. intro. constructor. Qed.
+
+Lemma forallb_firstn {A} (f : A -> bool) l k : forallb f l = true -> forallb f (firstn k l) = true.
+Proof.
+  revert k; induction l as [|x l IH]; intros [|k] H; cbn in *; auto.
+  apply andb_true_iff in H as [H1 H2]. rewrite H1. cbn. auto.
+Qed.
+
+(* failing attempts run prefixes of the same instructions *)
+Lemma compile_fails_touches t is fails : forallb (instr_ok t) is = true ->
+  touches_only t (compile_fails is fails).
+Proof.
+  intro H. induction fails as [|k fails IH]; cbn.
+  - apply compile_touches; auto.
+  - apply compile_k_touches; [apply forallb_firstn; auto|]. intro. constructor. exact IH.
 Qed.
